@@ -140,13 +140,15 @@ theorem header_layout (h : Hdr) (chk : Bytes) (hc : chk.length = 8) :
     ∧ slice b 0 100 = strField 100 h.name ∧ slice b 100 8 = octField 8 h.mode ∧ slice b 108 8 = octField 8 h.uid
     ∧ slice b 116 8 = octField 8 h.gid ∧ slice b 124 12 = octField 12 h.size ∧ slice b 136 12 = octField 12 h.mtime
     ∧ slice b 148 8 = chk ∧ slice b 156 1 = [h.typeflag] ∧ slice b 157 100 = strField 100 h.linkname
-    ∧ slice b 257 6 = b!"ustar " ∧ slice b 265 32 = strField 32 h.uname ∧ slice b 297 32 = strField 32 h.gname := by
+    ∧ slice b 257 6 = h.flavor.magic ∧ slice b 265 32 = strField 32 h.uname ∧ slice b 297 32 = strField 32 h.gname := by
   intro b
   have L : ∀ w s, (strField w s).length = w := strField_length
   have O8 : ∀ n, (octField 8 n).length = 8 := fun n => octField_length 8 n (by decide)
   have O12 : ∀ n, (octField 12 n).length = 12 := fun n => octField_length 12 n (by decide)
+  have M : h.flavor.magic.length = 6 := by cases h.flavor <;> rfl
+  have V : h.flavor.version.length = 2 := by cases h.flavor <;> rfl
   refine ⟨?_, ?_, ?_, ?_, ?_, ?_, ?_, ?_, ?_, ?_, ?_, ?_, ?_⟩
-  · simp [b, fields, L, O8, O12, hc]
+  · simp [b, fields, L, O8, O12, hc, M, V]
   · exact slice_flatten [] _ _ 0 100 rfl (L _ _)
   · exact slice_flatten [_] _ _ 100 8 (by simp [L]) (O8 _)
   · exact slice_flatten [_, _] _ _ 108 8 (by simp [L, O8]) (O8 _)
@@ -156,9 +158,9 @@ theorem header_layout (h : Hdr) (chk : Bytes) (hc : chk.length = 8) :
   · exact slice_flatten [_, _, _, _, _, _] _ _ 148 8 (by simp [L, O8, O12]) hc
   · exact slice_flatten [_, _, _, _, _, _, _] _ _ 156 1 (by simp [L, O8, O12, hc]) rfl
   · exact slice_flatten [_, _, _, _, _, _, _, _] _ _ 157 100 (by simp [L, O8, O12, hc]) (L _ _)
-  · exact slice_flatten [_, _, _, _, _, _, _, _, _] _ _ 257 6 (by simp [L, O8, O12, hc]) rfl
-  · exact slice_flatten [_, _, _, _, _, _, _, _, _, _, _] _ _ 265 32 (by simp [L, O8, O12, hc]) (L _ _)
-  · exact slice_flatten [_, _, _, _, _, _, _, _, _, _, _, _] _ _ 297 32 (by simp [L, O8, O12, hc]) (L _ _)
+  · exact slice_flatten [_, _, _, _, _, _, _, _, _] _ _ 257 6 (by simp [L, O8, O12, hc]) M
+  · exact slice_flatten [_, _, _, _, _, _, _, _, _, _, _] _ _ 265 32 (by simp [L, O8, O12, hc, M, V]) (L _ _)
+  · exact slice_flatten [_, _, _, _, _, _, _, _, _, _, _, _] _ _ 297 32 (by simp [L, O8, O12, hc, M, V]) (L _ _)
 
 /-- replacing the checksum field by blanks gives the block the checksum was computed over -/
 theorem blank_block (h : Hdr) (chk : Bytes) (hc : chk.length = 8) :
@@ -170,7 +172,7 @@ theorem blank_block (h : Hdr) (chk : Bytes) (hc : chk.length = 8) :
   have O12 : ∀ n, (octField 12 n).length = 12 := fun n => octField_length 12 n (by decide)
   have hsplit : ∀ c : Bytes, (fields h c).flatten
       = (strField 100 h.name ++ octField 8 h.mode ++ octField 8 h.uid ++ octField 8 h.gid ++ octField 12 h.size ++ octField 12 h.mtime)
-        ++ (c ++ ([h.typeflag] ++ strField 100 h.linkname ++ b!"ustar " ++ [32, 0] ++ strField 32 h.uname ++ strField 32 h.gname
+        ++ (c ++ ([h.typeflag] ++ strField 100 h.linkname ++ h.flavor.magic ++ h.flavor.version ++ strField 32 h.uname ++ strField 32 h.gname
             ++ octField 8 0 ++ octField 8 0 ++ zeros 167)) := by
     intro c; simp [fields, List.append_assoc]
   have hA : (strField 100 h.name ++ octField 8 h.mode ++ octField 8 h.uid ++ octField 8 h.gid ++ octField 12 h.size
@@ -221,8 +223,8 @@ theorem readHeader_headerBlock (h : Hdr) (ok : HdrOK h) : readHeader (headerBloc
   change (headerBlock h).length = 512 at hlen
   rw [if_neg (by rw [hlen]; simp)]
   unfold headerBlock
-  rw [if_neg (by rw [h9]; simp)]
-  simp only [h0, h1, h2, h3, h4, h5, h6, h7, h8, h10, h11, hblank]
+  rw [if_neg (by rw [h9]; cases h.flavor <;> decide)]
+  simp only [h0, h1, h2, h3, h4, h5, h6, h7, h8, h9, h10, h11, hblank]
   have hchk : readOct (chkField h) = some (checksumOf h) := by
     unfold chkField
     exact readOct_octFixed 6 _ (by decide) (checksumOf_lt h) 0 [32] (Or.inl rfl)
@@ -232,6 +234,9 @@ theorem readHeader_headerBlock (h : Hdr) (ok : HdrOK h) : readHeader (headerBloc
   simp only [checksumOf, ne_eq, not_true_eq_false, if_false]
   rw [readStr_strField 100 _ ok.nameLen ok.nameNul, readStr_strField 100 _ ok.linkLen ok.linkNul,
     readStr_strField 32 _ ok.unameLen ok.unameNul, readStr_strField 32 _ ok.gnameLen ok.gnameNul]
+  have hf : (if h.flavor.magic = Flavor.gnu.magic then Flavor.gnu else Flavor.ustar) = h.flavor := by
+    cases h.flavor <;> decide
+  rw [hf]
   rfl
 
 end Nfpm.Tar
@@ -245,7 +250,7 @@ theorem isZeroBlock_zeros (n : Nat) : isZeroBlock (zeros n) = true := by
 theorem header_not_zero (h : Hdr) (tail : Bytes) : isZeroBlock ((headerBlock h ++ tail).take 1024) = false := by
   obtain ⟨hlen, _, _, _, _, _, _, _, _, _, h9, _, _⟩ := header_layout h (chkField h) (chkField_length h)
   change (headerBlock h).length = 512 at hlen
-  change slice (headerBlock h) 257 6 = b!"ustar " at h9
+  change slice (headerBlock h) 257 6 = h.flavor.magic at h9
   rw [Bool.eq_false_iff]
   intro hz
   have hall : ∀ x ∈ (headerBlock h ++ tail).take 1024, x = 0 := by
@@ -253,7 +258,7 @@ theorem header_not_zero (h : Hdr) (tail : Bytes) : isZeroBlock ((headerBlock h +
     have := List.all_eq_true.mp hz x hx
     simpa using this
   have hu : (117 : UInt8) ∈ headerBlock h := by
-    have : (117 : UInt8) ∈ slice (headerBlock h) 257 6 := by rw [h9]; decide
+    have : (117 : UInt8) ∈ slice (headerBlock h) 257 6 := by rw [h9]; cases h.flavor <;> decide
     unfold slice at this
     exact List.mem_of_mem_drop (List.mem_of_mem_take this)
   have hin : (117 : UInt8) ∈ (headerBlock h ++ tail).take 1024 := by
